@@ -2121,6 +2121,12 @@ class Circuit(Unitary, StateVectorMap, Collection[Operation]):
         circuit = self.batch_pop(region.points)
 
         # Insert popped circuit as a CircuitGate
+        if region.min_cycle >= self.num_cycles:
+            cycle = self.append_circuit(
+                circuit, sorted(list(region.keys())), True,
+            )
+            return CircuitPoint(cycle, region.min_qudit)
+
         self.insert_circuit(
             region.min_cycle,
             circuit,
